@@ -1688,7 +1688,7 @@ pub fn property() -> Property {
     Property {
         id: "C20",
         level: "fault_enumeration",
-        rule: "hist: generated histories of 0..10 operations (put, put_with_ttl {0,1,2,5} ms, update, delete, checkpoint, restore of any earlier checkpoint, clock advance by 0/1/2/3/5/6 ms = 0/1/ttl/ttl+1) over 3 keys on a file-backed StateStore under the injected clock, max_checkpoints in {10,3,2,1}, optional default TTL; values: every Value variant, nested arrays/objects, non-ASCII and control-character strings, dyadic floats (arbitrary finite f64 bit patterns in 1/8 of the cases, labelled class:arbitrary-f64). hist-exhN: every sequence of N operations over a 10-operation alphabet (1-2 keys, TTL 1 ms, advance 1/2 ms, restore oldest/newest, max_checkpoints=2). Oracle: at each checkpoint the observable state (keys+get+len) is recorded and must agree with an independent model of the unexpired entries; after restore(id) the observable state equals the recording of that checkpoint (floats bit-exact); checkpoint leaves the live state unchanged; list_checkpoints has min(n,max) entries, listed ids are pairwise distinct and each restores to its own recording at the end. crash: generated history of 0..8 mutation/advance/checkpoint operations followed by checkpoint B; then EVERY crash state of B's write sequence is materialised in place (no directory, empty directory, state.json truncated at every byte length 0..n, complete with retention pending, retention delete half done) and judged from a fresh store on the same path: every earlier retained checkpoint restores exactly its recording, restore(B) gives B's complete recording or Err with the live state unchanged. realcrash: put; checkpoint A; put; checkpoint B executed by a child process that the kernel kills (SIGXFSZ) at file size k in 0..n+1; the directory left behind must be exactly the enumerated state for k and is judged like it. Non-trivial (hist): a restore of an older checkpoint whose recording differs from a newer one, or a TTL entry recorded by a checkpoint that has expired by the time of the restore, or two checkpoints with zero clock advance; (crash): at least one earlier retained checkpoint whose recording differs from B's and a non-empty B; (realcrash): the child was killed before the file was complete. Distinct = distinct rendered case (configuration + operation list). realcrash, every second case: the store retains ONE checkpoint (max_checkpoints = 1), so its history is full when B is taken: a child killed inside B's write must leave A untouched; a child that survives has dropped A after completing B.",
+        rule: "hist: generated histories of 0..10 operations (put, put_with_ttl {0,1,2,5} ms, update, delete, checkpoint, restore of any earlier checkpoint, clock advance by 0/1/2/3/5/6 ms = 0/1/ttl/ttl+1) over 3 keys on a file-backed StateStore under the injected clock, max_checkpoints in {10,3,2,1}, optional default TTL; values: every Value variant, nested arrays/objects, non-ASCII and control-character strings, dyadic floats (arbitrary finite f64 bit patterns in 1/8 of the cases, labelled class:arbitrary-f64). hist-exhN: every sequence of N operations over a 10-operation alphabet (1-2 keys, TTL 1 ms, advance 1/2 ms, restore oldest/newest, max_checkpoints=2). Oracle: at each checkpoint the observable state (keys+get+len) is recorded and must agree with an independent model of the unexpired entries; after restore(id) the observable state equals the recording of that checkpoint (floats bit-exact); checkpoint leaves the live state unchanged; list_checkpoints has min(n,max) entries, listed ids are pairwise distinct and each restores to its own recording at the end. crash: generated history of 0..8 mutation/advance/checkpoint operations followed by checkpoint B; then EVERY crash state of B's write sequence is materialised in place (no directory, empty directory, state.json truncated at every byte length 0..n, complete with retention pending, retention delete half done) and judged from a fresh store on the same path: every earlier retained checkpoint restores exactly its recording, restore(B) gives B's complete recording or Err with the live state unchanged. realcrash: put; checkpoint A; put; checkpoint B executed by a child process that the kernel kills (SIGXFSZ) at file size k in 0..n+1; the directory left behind must be exactly the enumerated state for k and is judged like it. Non-trivial (hist): a restore of an older checkpoint whose recording differs from a newer one, or a TTL entry recorded by a checkpoint that has expired by the time of the restore, or two checkpoints with zero clock advance; (crash): at least one earlier retained checkpoint whose recording differs from B's and a non-empty B; (realcrash): the child was killed before the file was complete. Distinct = distinct rendered case (configuration + operation list). realcrash, every second case: the store retains ONE checkpoint (max_checkpoints = 1), so its history is full when B is taken: a child killed inside B's write must leave A untouched; a child that survives has dropped A after completing B. hist: 1 history in 7 deals in signed zeros (0.0, -0.0, [0.0], [-0.0] written in turn; floats are compared bit-exactly).",
         assumptions: vec![
             "TTL semantics taken from the code, not from the statement: put/put_with_ttl start a new lifetime, update keeps creation time and TTL, restored entries carry no TTL; an entry whose age equals its TTL exactly may be reported either way".into(),
             "crash states are enumerated under the assumed write sequence create_dir_all -> File::create -> write_all (prefix-ordered, no fsync reordering) -> metadata -> retention remove_dir_all; the layout <path>/<id>/state.json is verified per case (Discard otherwise); part realcrash cross-checks the write_all stage on a sample with a child process killed by SIGXFSZ under RLIMIT_FSIZE=k (crashes before File::create and power-loss reordering of unsynced data are not cross-checked)".into(),
